@@ -26,7 +26,7 @@
    for custom bases as they stand; the d <= 4 closed-form identities of Theory/Hitzer.v are proved for
    ascending spellings and transfer to other spellings by the C14 relabelling isomorphism
    (Theory/Relabel.v), which is not composed here. *)
-From Coq Require Import List ZArith Bool Ring Lia Permutation RelationClasses.
+From Coq Require Import List ZArith Bool Ring Lia Permutation RelationClasses QArith Qcanon.
 From KV Require Import Model.All Model.Inverse Theory.WF Theory.Bits Theory.Sparse Theory.Product Theory.Ops
   Theory.OpsWF Theory.Algebra Theory.Natural.
 Import ListNotations.
@@ -794,3 +794,14 @@ Section Powers.
     exact (inv_model_sound R rO rI radd rmul rsub ropp Rth A SH dv isz F HF x _ _ r Hx E' H1 H2 (Hdv _ Hz) Hr).
   Qed.
 End Powers.
+
+(* ================= an instance: canonical fractions are a field with an exact zero test ================= *)
+Lemma Qc_isz_exact : forall r, Qcisz r = true -> r = Q2Qc 0.
+Proof. intros r H. apply Qc_eq_bool_correct. exact H. Qed.
+Lemma Qc_div_inverts : forall b, Qcisz b = false -> Qcmult b (Qcdiv (Q2Qc 1) b) = Q2Qc 1.
+Proof.
+  intros b H. unfold Qcdiv. rewrite Qcmult_1_l. apply Qcmult_inv_r.
+  intros E. subst b. discriminate H.
+Qed.
+Lemma Qc_one_neq_zero : Q2Qc 1 <> Q2Qc 0.
+Proof. intros E. discriminate E. Qed.
